@@ -17,9 +17,9 @@ add('C02', _P, 'Lean 4 refinement proof Impl = bit-serial specification + corres
     'The specification transcription TJ.Spec is trusted as a reading of the NIST document (validated on KAT files).', '5 C02')
 add('C03', _P, 'Lean 4 theorem accept <-> recomputed tag equal (all 2^64 tags) + tamper-stream correspondence',
     'TJ.Props.C03: check_tag returns 0 iff the tags are equal; decrypt returns 0 iff the packet equals encrypt(candidate plaintext); every wrong tag is rejected with -1; '
-    'short input rejected without writes; result in {0,-1}.  The 2^-64 forgery bound is cryptographic and not claimed.' + _TIE, '', '5 C03')
+    'short input rejected without writes; result in {0,-1}.  TJ.Props.C03Gen: the term REGENERATED from src/backend/tinyjambu-util.c computes exactly the model\'s checkTag (verdict and wipe) for every tag length, tag pair, plaintext length and content, buffers possibly sharing a block (loop inductions on the MiniC semantics).  The 2^-64 forgery bound is cryptographic and not claimed.' + _TIE, '', '5 C03')
 add('C04', _P, 'Lean 4 theorem reject => all-zero buffer / accept => plaintext (AEAD and SIV) + tamper-stream correspondence',
-    'TJ.Props.C04: on rejection the plaintext region is all zero, on acceptance it holds the plaintext, for AEAD and SIV, every length and every permutation.' + _TIE, '', '5 C04')
+    'TJ.Props.C04: on rejection the plaintext region is all zero, on acceptance it holds the plaintext, for AEAD and SIV, every length and every permutation; TJ.Props.C03Gen ties the wipe loop of the regenerated tinyjambu_aead_check_tag to the model for all lengths and contents.' + _TIE, '', '5 C04')
 add('C05', _P, 'Lean 4 theorems on REGENERATED assembly programs (translator asm2lean.py; symbolic block execution by simp + bv_decide; loop induction) + generator byte-identity + selection table',
     'Per back end a regenerated theorem TJ.Gen.Asm.<program>.correct: for every machine state and every round count 1 <= r < 2^32 the call returns, the four state words become the '
     'specification permutation of the old ones, no other memory word changes, callee-saved registers and stack are restored.  21 of 27 assembly programs are covered '
